@@ -22,6 +22,7 @@ def c05_runs(tier):
     mt = MTUS_T if tier == "thorough" else MTUS_Q
     runs = [("main", ["--mode", "closure"] + c) for c in cfgs(mt)]
     runs += [("main", ["--mode", "sweep", "--mtu", "1500", "--wifi", "0"])]
+    runs += [("main", ["--mode", "addr", "--mtu", "1500", "--wifi", "0"])]                     # mapper addresses that differ in one bit
     runs += [("main", ["--mode", "closure", "--b", "1", "--mtu", "1500", "--wifi", "0"])]      # three interfaces: frames on the other two interleave
     if tier == "thorough":
         runs += [("main", ["--mode", "sweep", "--mtu", "576", "--wifi", "1"])]
@@ -57,6 +58,8 @@ def obs_runs(mode):
         runs = [("main", ["--mode", mode, "--mtu", str(m), "--wifi", "0"]) for m in mt]
         if mode == "c07":            # three interfaces: frames on the other two interleave (MTU 576: the smallest capacity)
             runs += [("main", ["--mode", "c07", "--mtu", "576", "--wifi", "0", "--b", "1", "--a", "40"])]
+        if mode == "c07":            # observations whose addresses differ in one bit
+            runs += [("main", ["--mode", "c07a", "--mtu", "1500", "--wifi", "0"])]
         if mode == "c07":            # every sequence number of a Query
             runs += [("main", ["--mode", "c07v", "--mtu", str(m), "--wifi", "0"]) for m in ((576, 1500) if tier == "thorough" else (576,))]
         return runs
@@ -209,7 +212,7 @@ def c17_runs(tier):
 
 
 EMIT = {"main": {"sources": MC + ["checks/emit.c"], "modes": ["c06", "c10", "c10flood"]}}
-OBS = {"main": {"sources": MC + ["checks/obs.c"], "modes": ["c07", "c07v", "c19", "c19pump", "c19multi", "c02o"]},
+OBS = {"main": {"sources": MC + ["checks/obs.c"], "modes": ["c07", "c07v", "c07a", "c19", "c19pump", "c19multi", "c02o"]},
        "proto": {"sources": MC + ["checks/proto.c"], "modes": ["c19p"]}}
 
 
@@ -370,7 +373,7 @@ PROPS = {
                         "quick tier uses the 18-event alphabet for prefix and continuation, thorough the full protocol alphabet"],
     },
     "C05": {
-        "builds": {"main": {"sources": MC + ["checks/c05.c"], "modes": ["closure", "sweep"]}},
+        "builds": {"main": {"sources": MC + ["checks/c05.c"], "modes": ["closure", "sweep", "addr"]}},
         "runs": c05_runs,
         "level": "model_checking",
         "technique": "explicit-state BFS to fixpoint over the real parseFrame (product with a 3-valued reference arbiter) + exhaustive 256x256 (ToS,opcode) single-step sweep",
